@@ -5,6 +5,7 @@ SITES = [
     dict(gen="Writes", name="potentialWrites", file="abtem/potentials/iam.py", emitter="py2lean_writes:emit", select="param_any:atoms", modes=["rat"]),
     dict(gen="Writes", name="phononWrites", file="abtem/inelastic/phonons.py", emitter="py2lean_writes:emit", select="param_any:atoms", modes=["rat"]),
     dict(gen="Writes", name="blochWrites", file="abtem/bloch/dynamical.py", emitter="py2lean_writes:emit", select="param_any:atoms", modes=["rat"]),
+    dict(gen="Writes", name="operatorNames", file="abtem/array.py", emitter="py2lean_writes:emit", select="operator_names", modes=["rat"]),
     dict(gen="Writes", name="arrayObjectWrites", file="abtem/array.py", emitter="py2lean_writes:emit", select="methods", modes=["rat"]),
 ]
 FINGERPRINTS = {
